@@ -272,6 +272,11 @@ PayloadErr(t) ==
           IN Err("PayloadOfNamedSeq", <<L[i].kind, L[i].seq, aj[1], aj[2]>>, Emis(aj[1], L[i].wins[aj[1]][aj[2]].seq), L[i].wins[aj[1]][aj[2]])
 
 (* ---- completion: the record in aux['record'] (C13) and the final abstract state (C09) ---------- *)
+(* the recorded windows of step (k, i) against the probe log: some log entry of that step saw exactly these windows (an overridden supervisor step
+   has no log entry and is not judged here) *)
+RecWinsOk(k, i, w) ==
+  LET es == {j \in 1..Len(T.log) : T.log[j].kind = k /\ T.log[j].seq = i}
+  IN es = {} \/ \E j \in es : \A a \in DOMAIN w : a \in DOMAIN T.log[j].wins /\ NormLogWin(w[a]) = NormLogWin(T.log[j].wins[a])
 RecErr ==
   IF ~("rec" \in DOMAIN T) THEN NoErr ELSE
   LET bad == {kr \in UNION {{<<k, i>> : i \in 1..Len(T.rec[k])} : k \in DOMAIN T.rec} :
@@ -280,7 +285,9 @@ RecErr ==
                 THEN ~(/\ row.seq = i /\ row.eps = T.eps /\ row.start = exec[k][i].start
                        /\ (row.h = NA \/ row.h = exec[k][i].h)
                        /\ (row.out_h = NA \/ row.out_h = exec[k][i].h_out)
-                       /\ (row.rngi = NA \/ exec[k][i].rngi = NA \/ row.rngi = exec[k][i].rngi))
+                       /\ (row.rngi = NA \/ exec[k][i].rngi = NA \/ row.rngi = exec[k][i].rngi)
+                       \* recorded input windows = the windows the step function was CALLED with (what the probe saw), not what it handed back
+                       /\ (~("wins" \in DOMAIN row) \/ RecWinsOk(k, i, row.wins)))
                 ELSE IF k = T.sup /\ i = supss.seq /\ row.seq = i
                      \* the supervisor's step that run_until_supervisor has PREPARED (its step state was handed to the caller of reset()/step()) but
                      \* that has not been executed: rex has already written what the step will use; what it produces is still unwritten
